@@ -365,6 +365,9 @@ def remove_qubit(tableau, qubit_position, measurement_determinism="probabilistic
     tableau, outcome, probabilistic = z_measurement_gate(
         tableau, qubit_position, measurement_determinism
     )
+    if outcome == 1:
+        # the removed qubit is in |1>: a generator with Z on it acts on the others with the opposite sign
+        tableau.phase = tableau.phase ^ tableau.table[:, qubit_position + n_qubits]
     new_table = np.delete(
         tableau.table, [qubit_position, qubit_position + n_qubits], axis=1
     )
